@@ -9,8 +9,10 @@
   exponent. With a power-of-two max_value no output magnitude exceeds it, the map is monotone on
   each sign, idempotent when no leaky slope is configured, and min()/max() enclose every output.
 
-  Model: QKV.Model.Po2Quant (`quantWith c x r` = output when the float evaluation of the rounded
-  logarithm returned `r`; `RawAdm` = which `r` the 2^-15 band admits; `quant` = the exact choice;
+  Model: QKV.Model.Po2Quant (`quantWith c x r` = output when the code ended up with `r` as rounded
+  logarithm; `RawAdm` = which `r` it can end up with: "rnd" = any rounding the 2^-15 band around
+  sqrt(2)·2^k admits, "floor" (after fix 40deb9c) = such a rounding followed by the exact step-down
+  test `2^round > x`, which leaves exactly the floor exponent; `quant` = the exact choice;
   `Admissible c x y` = `y` is an output for some admissible `r`; `quantFWith` = float32 layer).
   All theorems: every bit width (`Cfg.WF`: bits ≥ 2, relu variant bits ≥ 1), every rational input,
   every admissible rounding of the logarithm unless a theorem says `quant` (the exact choice).
@@ -30,11 +32,11 @@ def epsF32 : ℚ := 14073749 / 140737488355328
 def MvOK (c : Cfg) : Prop :=
   c.maxValue = none ∨ ∃ k : ℤ, c.maxValue = some (pow2 k) ∧ c.minExp ≤ k ∧ c.eps ≤ pow2 k
 
-/-- the epsilon floor does not cut between two codes: an admissible exponent of a value ≥ eps is a
-    code ≥ eps, or is clipped to the smallest code anyway.  True for float32(1e-7) in "rnd" mode
-    for every configuration and in "floor" mode when `min_exp ≥ -24` (examples below). -/
+/-- the epsilon floor does not cut between two codes: an exponent the code can select for a value
+    ≥ eps is a code ≥ eps, or is clipped to the smallest code anyway.  True for float32(1e-7) in
+    "rnd" mode for every configuration and in "floor" mode when `min_exp ≥ -24` (theorems below). -/
 def EpsOK (c : Cfg) : Prop :=
-  ∀ r : ℤ, key c c.eps ≤ bandHi c r → c.eps ≤ pow2 r ∨ r ≤ c.minExp
+  ∀ (v : ℚ) (r : ℤ), c.eps ≤ v → RawAdm c v r → c.eps ≤ pow2 r ∨ r ≤ c.minExp
 
 /-! ## magnitude is a power of two with an in-range exponent -/
 
@@ -104,10 +106,10 @@ theorem C03_nearest_band (c : Cfg) (hq : c.quad = false) (hf : c.floorMode = fal
   have he : e = clipI r c.minExp c.maxExp := by
     show clipExpWith c (magIn c x) r = _
     unfold clipExpWith; rw [if_neg hx, qf_one c hq, one_mul]
-  obtain ⟨h1, h2⟩ := ha
-  rw [key_rnd c hq hf] at h1 h2
-  rw [bandLo_rnd c hf] at h1
-  rw [bandHi_rnd c hf] at h2
+  obtain ⟨h1, h2⟩ := (rawAdm_rnd c hf _ _).mp ha
+  rw [key_nq c hq] at h1 h2
+  rw [bandLo_eq] at h1
+  rw [bandHi_eq] at h2
   refine ⟨he, ?_, ?_⟩
   · intro hlt
     have : e ≤ r := by rw [he] at hlt ⊢; exact le_clipI_of hmm hlt
@@ -139,30 +141,21 @@ theorem C03_nearest_exact (c : Cfg) (hq : c.quad = false) (hf : c.floorMode = fa
     have : rawExp c v ≤ e := by rw [he] at hlt ⊢; exact clipI_le_of hmm hlt
     exact lt_of_lt_of_le h2 (pow2_le_pow2 (by omega))
 
-/-- "floor", any admissible rounding -/
-theorem C03_floor_band (c : Cfg) (hq : c.quad = false) (hf : c.floorMode = true) (x : ℚ) (r : ℤ)
-    (hx : ¬ magIn c x < c.eps) (ha : RawAdm c (logArg c x) r) :
-    let e := clipExpWith c (magIn c x) r
-    let v := logArg c x
-    e = clipI r c.minExp c.maxExp ∧
-    (c.minExp < e → pow2 e * (1 - beta) ≤ v) ∧ (e < c.maxExp → v ≤ pow2 (e + 1) * (1 + beta)) := by
-  intro e v
-  have hmm := minExp_le_maxExp c hq
-  have he : e = clipI r c.minExp c.maxExp := by
-    show clipExpWith c (magIn c x) r = _
-    unfold clipExpWith; rw [if_neg hx, qf_one c hq, one_mul]
-  obtain ⟨h1, h2⟩ := ha
-  rw [key_floor c hq hf] at h1 h2
-  rw [bandLo_floor c hq hf] at h1
-  rw [bandHi_floor c hq hf] at h2
-  refine ⟨he, ?_, ?_⟩
-  · intro hlt
-    have : e ≤ r := by rw [he] at hlt ⊢; exact le_clipI_of hmm hlt
-    exact le_trans (mul_le_mul_of_nonneg_right (pow2_le_pow2 this) one_sub_beta_pos.le) h1
-  · intro hlt
-    have : r ≤ e := by rw [he] at hlt ⊢; exact clipI_le_of hmm hlt
-    exact le_trans h2 (mul_le_mul_of_nonneg_right (pow2_le_pow2 (by omega))
-      (by linarith [one_le_one_add_beta]))
+/-- "floor" (after fix 40deb9c: round the float logarithm, then step down iff `2^round > x`):
+    whatever admissible value the float rounding took, the selected exponent is THE floor
+    exponent — no band is left in floor mode. -/
+theorem C03_floor_deterministic (c : Cfg) (hq : c.quad = false) (hf : c.floorMode = true) (v : ℚ)
+    (hv : 0 < v) (r : ℤ) (ha : RawAdm c v r) : r = rawExp c v ∧ pow2 r ≤ v ∧ v < pow2 (r + 1) := by
+  have hr := rawAdm_floor_unique c hq hf v hv r ha
+  rw [hr]; exact ⟨rfl, rawExp_floor_spec c hq hf v hv⟩
+
+/-- "floor", every admissible rounding: the output is the output of the exact logarithm -/
+theorem C03_floor_admissible_eq_exact (c : Cfg) (hq : c.quad = false) (hf : c.floorMode = true)
+    (hw : c.WF) (x y : ℚ) (h : Admissible c x y) : y = quant c x := by
+  obtain ⟨r, ha, rfl⟩ := h
+  have hv : 0 < logArg c x := xFilter_pos c hw.epsPos hw.mvPos _
+  unfold quant
+  rw [rawAdm_floor_unique c hq hf _ hv r ha]
 
 /-- "floor", exact choice: `2^e ≤ v < 2^(e+1)` strictly inside the range -/
 theorem C03_floor_exact (c : Cfg) (hq : c.quad = false) (hf : c.floorMode = true) (x : ℚ)
@@ -250,18 +243,24 @@ theorem C03_mono_neg (c : Cfg) (hq : c.quad = false) (hw : c.WF) {x x' : ℚ} (h
     · rw [quant_eq, quant_eq, h1, h2, h1', h2']
 
 /-- band robustness of monotonicity: with arbitrary admissible roundings an order inversion of
-    the exponents can only happen when both arguments of the logarithm sit in the band of one and
-    the same breakpoint (the one between `r - 1` and `r`). -/
-theorem C03_mono_band (c : Cfg) (hq : c.quad = false) {v v' : ℚ} (hv : 0 ≤ v) (h : v ≤ v') {r r' : ℤ}
+    the exponents can only happen in "rnd" mode and only when both arguments of the logarithm sit
+    in the band of one and the same breakpoint (the one between `r - 1` and `r`); "floor" mode
+    never inverts. -/
+theorem C03_mono_band (c : Cfg) (hq : c.quad = false) {v v' : ℚ} (hv : 0 < v) (h : v ≤ v') {r r' : ℤ}
     (ha : RawAdm c v r) (ha' : RawAdm c v' r') :
-    r ≤ r' ∨ (r' = r - 1 ∧ bandLo c r ≤ key c v ∧ key c v' ≤ bandHi c (r - 1)) := by
+    r ≤ r' ∨ (c.floorMode = false ∧ r' = r - 1 ∧ bandLo c r ≤ key c v ∧ key c v' ≤ bandHi c (r - 1)) := by
   rcases le_or_gt r r' with hle | hlt
   · exact Or.inl hle
-  · have := rawAdm_order c hq hv h ha ha' hlt
+  · obtain ⟨hf, this⟩ := rawAdm_order c hq hv h ha ha' hlt
     subst this
-    exact Or.inr ⟨rfl, ha.1, ha'.2⟩
+    exact Or.inr ⟨hf, rfl, ((rawAdm_rnd c hf _ _).mp ha).1, ((rawAdm_rnd c hf _ _).mp ha').2⟩
 
-/-! ## idempotent when no leaky slope is configured -/
+/-! ## idempotent when no leaky slope is configured
+
+  `C03_idem` holds for both rounding modes and EVERY admissible float rounding on both passes
+  (before fix 40deb9c "floor" mode failed at exact powers of two; `C03_idem_floor_pow2_regression`
+  pins the repaired behaviour).  The hypothesis `EpsOK` is what is still missing in "floor" mode
+  for configurations with `min_exp < -24` (`C03_idem_floor_eps_counterexample`, recorded finding). -/
 
 /-- what the first pass guarantees about its exponent: it is the smallest code or a code `≥ eps`,
     and never above `max_value` -/
@@ -283,8 +282,7 @@ theorem C03_first_pass_code (c : Cfg) (hq : c.quad = false) (hw : c.WF) (hmv : M
         · rw [h] at hm; cases hm
         · rw [hk] at hm; cases hm; exact hk2
       have hv : c.eps ≤ logArg c x := eps_le_xFilter c _ hge
-      have hkey : key c c.eps ≤ bandHi c r := le_trans (key_mono c hq hw.epsPos.le hv) ha.2
-      rcases heps r hkey with h | h
+      rcases heps (logArg c x) r hv ha with h | h
       · by_cases hr : r ≤ c.maxExp
         · by_cases hr2 : c.minExp ≤ r
           · rw [clipI_id hr2 hr]; exact Or.inr h
@@ -328,7 +326,7 @@ theorem C03_code_fixed_point (c : Cfg) (hq : c.quad = false) (hw : c.WF) (hs : c
     · exact absurd hlt (not_lt.mpr h)
   · rw [qf_one c hq, one_mul, hr hlt, clipI_id he1 he2]
 
-theorem C03_idem_rnd (c : Cfg) (hq : c.quad = false) (hf : c.floorMode = false) (hw : c.WF)
+theorem C03_idem (c : Cfg) (hq : c.quad = false) (hw : c.WF)
     (hs : c.negSlope = 0) (hmv : MvOK c) (heps : EpsOK c) (x y z : ℚ)
     (h1 : Admissible c x y) (h2 : Admissible c y z) : z = y := by
   obtain ⟨r1, ha1, rfl⟩ := h1
@@ -347,7 +345,7 @@ theorem C03_idem_rnd (c : Cfg) (hq : c.quad = false) (hf : c.floorMode = false) 
   rw [hq1] at ha2 ⊢
   apply C03_code_fixed_point c hq hw hs (signOut c x) hsx e hm1 hm2 hcode hle r2
   intro hge
-  -- the argument of the second logarithm is 2^e itself, where "rnd" leaves no choice
+  -- the argument of the second logarithm is 2^e itself, where neither mode leaves a choice
   have hmag : magIn c (signOut c x * pow2 e) = pow2 e := by
     have hp := pow2_pos e
     rcases hsx with h | ⟨h, hr⟩
@@ -356,42 +354,7 @@ theorem C03_idem_rnd (c : Cfg) (hq : c.quad = false) (hf : c.floorMode = false) 
   have hv : logArg c (signOut c x * pow2 e) = pow2 e := by
     unfold logArg; rw [hmag]; exact xFilter_id c _ hge hle
   rw [hv] at ha2
-  exact rawAdm_pow2_rnd c hq hf e r2 ha2
-
-/-- "floor": with the exact logarithm on the second pass the codes are fixed points, provided the
-    epsilon floor does not cut between two codes (`EpsOK`, i.e. `min_exp ≥ -24` for float32 1e-7).
-    Partial: with the float logarithm the second pass may return `e - 1` at an exact power of two
-    (`C03_idem_floor_band_counterexample`), and without `EpsOK` the code `2^-24` is not a fixed point
-    (`C03_idem_floor_eps_counterexample`). -/
-theorem C03_idem_floor_partial (c : Cfg) (hq : c.quad = false) (hf : c.floorMode = true) (hw : c.WF)
-    (hs : c.negSlope = 0) (hmv : MvOK c) (heps : EpsOK c) (x y : ℚ)
-    (h1 : Admissible c x y) : quant c y = y := by
-  obtain ⟨r1, ha1, rfl⟩ := h1
-  obtain ⟨hcode, hle⟩ := C03_first_pass_code c hq hw hmv heps x r1 ha1
-  obtain ⟨hm1, hm2⟩ := clipExpWith_mem c hq (magIn c x) r1
-  set e := clipExpWith c (magIn c x) r1 with he
-  have hsx : signOut c x = 1 ∨ (signOut c x = -1 ∧ c.relu = false) := by
-    rcases signOut_cases c x with h | h
-    · exact Or.inl h
-    · right; refine ⟨h, ?_⟩
-      by_contra hr
-      have hr' : c.relu = true := by cases hc : c.relu <;> simp_all
-      unfold signOut posBranch at h; simp [hr', hs] at h; norm_num at h
-  have hq1 : quantWith c x r1 = signOut c x * pow2 e := rfl
-  rw [hq1]
-  unfold quant
-  apply C03_code_fixed_point c hq hw hs (signOut c x) hsx e hm1 hm2 hcode hle
-  intro hge
-  have hmag : magIn c (signOut c x * pow2 e) = pow2 e := by
-    have hp := pow2_pos e
-    rcases hsx with h | ⟨h, hr⟩
-    · rw [h, one_mul]; exact magIn_of_nonneg c hp.le
-    · rw [h]; unfold magIn rabs; simp [hr]; intro h'; linarith
-  have hv : logArg c (signOut c x * pow2 e) = pow2 e := by
-    unfold logArg; rw [hmag]; exact xFilter_id c _ hge hle
-  rw [hv]
-  exact rawExp_pow2_floor c hq hf e
-
+  exact rawAdm_pow2 c hq e r2 ha2
 
 /-! ## `min()` / `max()` enclose every output -/
 
@@ -408,7 +371,7 @@ theorem C03_abs_le_max (c : Cfg) (hq : c.quad = false) (hw : c.WF) (hmv : MvOK c
     exact le_trans (C03_le_max c hq hw.epsPos k hk hk1 x r ha) (le_rmax_right _ _)
 
 theorem C03_minmax_enclose (c : Cfg) (hq : c.quad = false) (hw : c.WF) (hmv : MvOK c)
-    (hnl : c.negSlope = 0) (x : ℚ) (r : ℤ) (ha : RawAdm c (logArg c x) r) :
+    (x : ℚ) (r : ℤ) (ha : RawAdm c (logArg c x) r) :
     qmin c ≤ quantWith c x r ∧ quantWith c x r ≤ qmax c := by
   have habs := C03_abs_le_max c hq hw hmv x r ha
   have h2 : quantWith c x r ≤ qmax c := le_trans (le_abs_self _) habs
@@ -416,25 +379,21 @@ theorem C03_minmax_enclose (c : Cfg) (hq : c.quad = false) (hw : c.WF) (hmv : Mv
   cases hr : c.relu
   · have : qmin c = - qmax c := by unfold qmin; simp [hr]
     rw [this]; linarith [neg_abs_le (quantWith c x r)]
-  · have : qmin c = pow2 c.minExp := by unfold qmin; simp [hr, hnl]
-    rw [this]
-    have hs : signOut c x = 1 := by unfold signOut posBranch; simp [hr, hnl]
-    unfold quantWith; rw [hs, one_mul]
-    exact pow2_le_pow2 (clipExpWith_mem c hq _ r).1
+  · by_cases hnl : c.negSlope = 0
+    · have : qmin c = pow2 c.minExp := by unfold qmin; simp [hr, hnl]
+      rw [this]
+      have hs : signOut c x = 1 := by unfold signOut posBranch; simp [hr, hnl]
+      unfold quantWith; rw [hs, one_mul]
+      exact pow2_le_pow2 (clipExpWith_mem c hq _ r).1
+    · have : qmin c = - qmax c := by unfold qmin; simp [hr, hnl]
+      rw [this]; linarith [neg_abs_le (quantWith c x r)]
 
-/-- leaky relu variant: the upper bound and the true lower bound `-max()` hold … -/
-theorem C03_minmax_leaky_partial (c : Cfg) (hq : c.quad = false) (hw : c.WF) (hmv : MvOK c) (x : ℚ)
-    (r : ℤ) (ha : RawAdm c (logArg c x) r) :
-    - qmax c ≤ quantWith c x r ∧ quantWith c x r ≤ qmax c := by
-  have habs := C03_abs_le_max c hq hw hmv x r ha
-  exact ⟨by linarith [neg_abs_le (quantWith c x r)], le_trans (le_abs_self _) habs⟩
-
-/-- … but `min()` of the leaky relu variant does not enclose the negative outputs:
-    `quantized_relu_po2(4, negative_slope=0.25)`: `q(-1000) = -128`, `min() = -2`. -/
-theorem C03_minmax_leaky_counterexample :
+/-- regression witness of fix 06b857d: `quantized_relu_po2(4, negative_slope=0.25)`:
+    `q(-1000) = -128` and `min() = -128` (was `-2`). -/
+theorem C03_minmax_leaky_regression :
     let c : Cfg := { relu := true, bits := 4, maxValue := none, negSlope := 1 / 4,
                      floorMode := false, quad := false, eps := epsF32 }
-    RawAdm c (logArg c (-1000)) 8 ∧ quantWith c (-1000) 8 = -128 ∧ qmin c = -2 := by
+    RawAdm c (logArg c (-1000)) 8 ∧ quantWith c (-1000) 8 = -128 ∧ qmin c = -128 := by
   intro c
   have hmin : c.minExp = -8 := by simp [c, Cfg.minExp, Cfg.effBits, needSign]
   have hmax : c.maxExp = 7 := by simp [c, Cfg.maxExp, Cfg.maxExp0, Cfg.effBits, needSign]
@@ -442,12 +401,12 @@ theorem C03_minmax_leaky_counterexample :
   have hlog : logArg c (-1000) = 250 := by
     unfold logArg; rw [hmag]; simp [c, xFilter, epsF32]; norm_num
   refine ⟨?_, ?_, ?_⟩
-  · rw [hlog]; unfold RawAdm key bandLo bandHi
+  · rw [hlog, rawAdm_rnd c rfl]; unfold RndAdm key bandLo bandHi
     simp only [c, beta, pow2_eq_zpow]; norm_num
   · unfold quantWith clipExpWith
     rw [hmag, hmin, hmax]
     simp [c, signOut, posBranch, Cfg.qf, clipI, epsF32, pow2_eq_zpow]; norm_num
-  · unfold qmin; rw [hmin]; simp [c, rmin, pow2_eq_zpow]; norm_num
+  · unfold qmin qmax; rw [hmax]; simp [c, truthy, rmax, pow2_eq_zpow]; norm_num
 
 /-! ## the epsilon hypothesis is satisfiable by the real epsilon -/
 
@@ -456,8 +415,10 @@ theorem epsF32_pos : 0 < epsF32 := by norm_num [epsF32]
 /-- "rnd": float32(1e-7) satisfies `EpsOK` for every configuration -/
 theorem C03_epsOK_rnd (c : Cfg) (hq : c.quad = false) (hf : c.floorMode = false) (he : c.eps = epsF32) :
     EpsOK c := by
-  intro r hkey
-  rw [key_rnd c hq hf, bandHi_rnd c hf, he] at hkey
+  intro v r hv ha
+  have hkey : key c c.eps ≤ bandHi c r :=
+    le_trans (key_mono c hq (by rw [he]; exact epsF32_pos.le) hv) ((rawAdm_rnd c hf _ _).mp ha).2
+  rw [key_nq c hq, bandHi_eq, he] at hkey
   rw [he]
   by_cases hr : r ≤ -24
   · exfalso
@@ -474,47 +435,55 @@ theorem C03_epsOK_rnd (c : Cfg) (hq : c.quad = false) (hf : c.floorMode = false)
 /-- "floor": float32(1e-7) satisfies `EpsOK` when `min_exp ≥ -24` (at most 4 effective bits) -/
 theorem C03_epsOK_floor (c : Cfg) (hq : c.quad = false) (hf : c.floorMode = true) (he : c.eps = epsF32)
     (hmin : -24 ≤ c.minExp) : EpsOK c := by
-  intro r hkey
-  rw [key_floor c hq hf, bandHi_floor c hq hf, he] at hkey
-  rw [he]
+  intro v r hv ha
+  have hpos : 0 < v := lt_of_lt_of_le (by rw [he]; exact epsF32_pos) hv
+  obtain ⟨_, _, h2⟩ := (fun h => h) (show r = rawExp c v ∧ pow2 r ≤ v ∧ v < pow2 (r + 1) from by
+    have hr := rawAdm_floor_unique c hq hf v hpos r ha
+    rw [hr]; exact ⟨rfl, rawExp_floor_spec c hq hf v hpos⟩)
+  rw [he] at hv ⊢
   by_cases hr : r ≤ -25
   · exfalso
     have h1 : pow2 (r + 1) ≤ pow2 (-24) := pow2_le_pow2 (by omega)
-    have h2 : epsF32 ≤ pow2 (-24) * (1 + beta) :=
-      le_trans hkey (mul_le_mul_of_nonneg_right h1 (by linarith [one_le_one_add_beta]))
-    rw [pow2_eq_zpow] at h2
-    norm_num [epsF32, beta] at h2
+    have h3 : epsF32 < pow2 (-24) := lt_of_le_of_lt hv (lt_of_lt_of_le h2 h1)
+    rw [pow2_eq_zpow] at h3
+    norm_num [epsF32] at h3
   · by_cases hr2 : r = -24
     · right; omega
     · left
       have h1 : pow2 (-23) ≤ pow2 r := pow2_le_pow2 (by omega)
-      have h2 : epsF32 ≤ pow2 (-23) := by rw [pow2_eq_zpow]; norm_num [epsF32]
+      have h3 : epsF32 ≤ pow2 (-23) := by rw [pow2_eq_zpow]; norm_num [epsF32]
       linarith
 
-/-! ## recorded defects of the unchanged code (known/C03.json) -/
+/-! ## repaired defects (regression witnesses) and recorded defects (known/C03.json) -/
 
-/-- "floor" + float logarithm: at the code `2^15` the band admits `14` as well as `15`
-    (the real code returns `2^14`), so idempotence fails for admissible second passes. -/
-theorem C03_idem_floor_band_counterexample :
+/-- regression witness of fix 40deb9c ("floor" + float logarithm): at the code `2^15` the float
+    rounding of the logarithm may be 15 (or, inside a band, a neighbour), but every admissible
+    evaluation returns `2^15` — before the fix `quantized_po2(8, log2_rounding="floor")(32768.)`
+    was `16384.` -/
+theorem C03_idem_floor_pow2_regression :
     let c : Cfg := { relu := false, bits := 8, maxValue := none, negSlope := 0,
                      floorMode := true, quad := false, eps := epsF32 }
-    Admissible c 32768 32768 ∧ Admissible c 32768 16384 := by
+    Admissible c 32768 32768 ∧ ∀ z, Admissible c 32768 z → z = 32768 := by
   intro c
   have hmin : c.minExp = -64 := by simp [c, Cfg.minExp, Cfg.effBits, needSign]
   have hmax : c.maxExp = 63 := by simp [c, Cfg.maxExp, Cfg.maxExp0, Cfg.effBits, needSign]
   have hmag : magIn c 32768 = 32768 := magIn_of_nonneg c (by norm_num)
-  have hlog : logArg c 32768 = 32768 := by
-    unfold logArg; rw [hmag]; simp [c, xFilter, epsF32]; norm_num
-  have hq : ∀ r : ℤ, -64 ≤ r → r ≤ 63 → quantWith c 32768 r = pow2 r := by
-    intro r h1 h2
+  have hp : (32768 : ℚ) = pow2 15 := by rw [pow2_eq_zpow]; norm_num
+  have hlog : logArg c 32768 = pow2 15 := by
+    unfold logArg; rw [hmag]; simp [c, xFilter, epsF32]; norm_num [hp.symm]
+  have hq15 : quantWith c 32768 15 = 32768 := by
     unfold quantWith clipExpWith
-    rw [hmag, signOut_of_nonneg c (by norm_num), hmin, hmax, one_mul, clipI_id h1 h2]
-    simp [c, Cfg.qf, epsF32]; norm_num
-  refine ⟨⟨15, ?_, ?_⟩, ⟨14, ?_, ?_⟩⟩
-  · rw [hlog]; unfold RawAdm key bandLo bandHi; simp only [c, beta, pow2_eq_zpow]; norm_num
-  · rw [hq 15 (by norm_num) (by norm_num), pow2_eq_zpow]; norm_num
-  · rw [hlog]; unfold RawAdm key bandLo bandHi; simp only [c, beta, pow2_eq_zpow]; norm_num
-  · rw [hq 14 (by norm_num) (by norm_num), pow2_eq_zpow]; norm_num
+    rw [hmag, signOut_of_nonneg c (by norm_num), hmin, hmax, one_mul,
+      clipI_id (by norm_num) (by norm_num)]
+    simp [c, Cfg.qf, epsF32, pow2_eq_zpow]; norm_num
+  constructor
+  · refine ⟨15, ?_, hq15.symm⟩
+    rw [hlog]
+    have := rawExp_adm c rfl (pow2 15) (pow2_pos 15)
+    rwa [rawExp_pow2_floor c rfl rfl] at this
+  · rintro z ⟨r, ha, rfl⟩
+    rw [hlog] at ha
+    rw [rawAdm_pow2 c rfl 15 r ha]; exact hq15
 
 /-- "floor" + epsilon floor: `x = eps` is sent to `2^-24 < eps`, and `2^-24` is sent to the
     smallest code `2^-64` by every rounding: `q(q(x)) ≠ q(x)` (needs `min_exp < -24`). -/
@@ -556,7 +525,7 @@ theorem C03_quad_range_counterexample :
     unfold logArg; rw [hmag]; simp [c, xFilter, epsF32]; norm_num
   refine ⟨hmax, ?_, ?_, ?_⟩
   · unfold qmax; rw [hmax]; simp [c, truthy, rmax, pow2_eq_zpow]; norm_num
-  · rw [hlog]; unfold RawAdm key bandLo bandHi; simp only [c, beta, pow2_eq_zpow]; norm_num
+  · rw [hlog, rawAdm_rnd c rfl]; unfold RndAdm key bandLo bandHi; simp only [c, beta, pow2_eq_zpow]; norm_num
   · unfold quantWith clipExpWith
     rw [hmag, signOut_of_nonneg c (by norm_num), hmin, hmax]
     simp [c, Cfg.qf, clipI, epsF32, pow2_eq_zpow]; norm_num
@@ -658,7 +627,7 @@ theorem C03_ste_cancel_counterexample :
     rw [pow2_eq_zpow, pow2_eq_zpow, pow2_eq_zpow]
     norm_num
   refine ⟨?_, hq, ?_⟩
-  · rw [hlog]; unfold RawAdm key bandLo bandHi; simp only [c, beta, pow2_eq_zpow]; norm_num
+  · rw [hlog, rawAdm_rnd c rfl]; unfold RndAdm key bandLo bandHi; simp only [c, beta, pow2_eq_zpow]; norm_num
   · have hp : pow2F 3 = some 8 := by unfold pow2F; rw [pow2_eq_zpow]; norm_num
     unfold quantFWith
     simp only [hd, he, hp]
